@@ -105,8 +105,32 @@ func odd(out string) {
 	}
 }
 
+// sctext adds a self-signed P-256 leaf that carries the embedded-SCT-list X.509
+// extension 1.3.6.1.4.1.11129.2.4.2 (run: genfixtures <outdir> sctext).
+func sctext(out string) {
+	k, _ := ecdsa.GenerateKey(elliptic.P256(), rand.Reader)
+	t := &x509.Certificate{
+		SerialNumber: big.NewInt(400), Subject: pkix.Name{CommonName: "seventh.example"},
+		NotBefore: time.Unix(1500000000, 0), NotAfter: time.Unix(4000000000, 0),
+		DNSNames: []string{"seventh.example"}, KeyUsage: x509.KeyUsageDigitalSignature,
+		ExtraExtensions: []pkix.Extension{{Id: []int{1, 3, 6, 1, 4, 1, 11129, 2, 4, 2}, Value: []byte{0x04, 0x06, 0x00, 0x04, 0x00, 0x02, 0xab, 0xcd}}},
+	}
+	der, err := x509.CreateCertificate(rand.Reader, t, t, &k.PublicKey, k)
+	if err != nil {
+		panic(err)
+	}
+	writePEM(filepath.Join(out, "g-p256.cert.pem"), "CERTIFICATE", der)
+	kd, _ := x509.MarshalECPrivateKey(k)
+	writePEM(filepath.Join(out, "g-p256.key.pem"), "EC PRIVATE KEY", kd)
+	fmt.Println("g-p256", len(der))
+}
+
 func main() {
 	out := os.Args[1]
+	if len(os.Args) > 2 && os.Args[2] == "sctext" {
+		sctext(out)
+		return
+	}
 	if len(os.Args) > 2 && os.Args[2] == "odd" {
 		odd(out)
 		return
